@@ -5,8 +5,10 @@
   Facts: NutsModel/Facts/C12.lean is REGENERATED from /repo on every run.
 -/
 import NutsModel.C12.PE
+import NutsModel.C12.Spec
 import NutsModel.Facts.C12
 import NutsProofs.Lemmas.C12
+import NutsProofs.Lemmas.C12Sound
 
 namespace Nuts.C12.Props
 open Nuts Nuts.C12
@@ -39,14 +41,147 @@ theorem fact_sr_schema :
 theorem fact_mapping_paths :
     Facts.C12.mappingPathFormats = ["$.verifiableCredential[%d]"] ∧ Facts.C12.singleMappingPaths = ["$.verifiableCredential"] := by decide
 
-/-! ### `pe_total`: matching never panics, for every definition, wallet and regexp behaviour -/
+/-! ### `pe_total`: no entry point of vcr/pe panics — for every definition (schema-valid or not), wallet, envelope,
+    submission, regexp behaviour and credential decoder -/
 
 theorem pe_total_match (re : Regex) (pd : PD) (wallet : List Cred) (site : String) :
     pdMatch Facts.C12.cfg re pd wallet ≠ .panic site := by
   rw [fact_cfg_fixed]
   exact isPanic_false_of (pdMatch_noPanic Cfg.fixed rfl rfl re pd wallet) site
 
-/-! ### The two defects of the code before the repair, as witnesses on the model of the OLD control flow
+/-- `Build` can only fail on `b.holders[0]`, when no wallet was added (`Validate` never calls it that way) -/
+theorem pe_total_build (re : Regex) (pd : PD) (wallets : List (List Cred)) (hne : wallets ≠ []) (site : String) :
+    build Facts.C12.cfg re pd wallets ≠ .panic site := by
+  rw [fact_cfg_fixed]
+  exact isPanic_false_of (build_noPanic Cfg.fixed rfl rfl re pd wallets hne) site
+
+theorem pe_total_validate (re : Regex) (decode : Decoder) (pd : PD) (env : Envelope) (sub : List Mapping) (site : String) :
+    validate Facts.C12.cfg re decode pd env sub ≠ .panic site := by
+  rw [fact_cfg_fixed]
+  exact isPanic_false_of (validate_noPanic Cfg.fixed rfl rfl re decode pd env sub) site
+
+theorem pe_total_resolve_fields (re : Regex) (pd : PD) (credMap : List (String × Cred)) (site : String) :
+    resolveFields Facts.C12.cfg re pd [] credMap ≠ .panic site := by
+  rw [fact_cfg_fixed]
+  exact isPanic_false_of (resolveFields_noPanic Cfg.fixed rfl re pd credMap []) site
+
+/-! ### `match_sound`: whatever `Match` selects satisfies what it is mapped to -/
+
+/-- For EVERY definition, wallet and regexp behaviour: when `Match` succeeds, the i-th descriptor-map entry is
+    `{id of an input descriptor d, format of v, $.verifiableCredential[i]}` where `v` is a credential of the wallet that
+    satisfies `d` (every constraint field per `FieldSat`, the definition's and the descriptor's format designations)
+    and `v` is (by `vcEqual`) the i-th selected credential; both lists have the same length.
+    Without submission requirements the entries are exactly the input descriptors, in order (never a partial map). -/
+theorem match_sound (re : Regex) (pd : PD) (wallet : List Cred) (ms : List Mapping) (vcs : List Cred)
+    (h : pdMatch Facts.C12.cfg re pd wallet = .ok (ms, vcs)) :
+    AlignedBy (MapsTo re pd wallet) 0 ms vcs ∧ (pd.srs = [] → ms.map (·.id) = pd.descs.map (·.id)) := by
+  rw [fact_cfg_fixed] at h
+  exact pdMatch_sound Cfg.fixed rfl re pd wallet ms vcs h
+
+/-- the filter evaluation itself is sound AND complete against the specification: it reports a match exactly
+    for values that match (errors — unsupported value kinds, regexp failures — are neither) -/
+theorem filter_sound_and_complete (re : Regex) (ty : String) (c p : Option String) (v : J) :
+    (∀ x, matchCore Facts.C12.cfg re ty c p v = .ok (some x) → Matches re ty c p v) ∧
+    (matchCore Facts.C12.cfg re ty c p v = .ok none → ¬ Matches re ty c p v) := by
+  rw [fact_cfg_fixed]
+  have := matchCore_spec Cfg.fixed rfl re ty c p v
+  exact ⟨fun x hx => (this.1 x hx).1, this.2⟩
+
+/-! ### `forged_mapping_rejected`: what the verifier accepts -/
+
+/-- If `Validate` accepts a submission for an envelope with at least one presentation (credentials parsed from an
+    envelope have a non-empty `Raw()`), then: the returned map `m` is exactly what `Build`/`Match` select on the
+    envelope's OWN credentials; no input descriptor is mapped twice; there are as many entries as selected
+    descriptors; EVERY entry's path (with its `path_nested` chain) resolves inside the envelope to a credential
+    whose `Raw()` equals that of `m[id]`; and every selected descriptor has an entry. -/
+theorem forged_mapping_rejected (re : Regex) (decode : Decoder) (pd : PD) (env : Envelope) (sub : List Mapping)
+    (m : List (String × Cred))
+    (hraw : ∀ p ∈ env.presentations, ∀ c ∈ p, c.raw ≠ "") (hne : env.presentations ≠ [])
+    (h : validate Facts.C12.cfg re decode pd env sub = .ok m) :
+    ∃ ms vcs, build Facts.C12.cfg re pd env.presentations = .ok (ms, vcs) ∧ expectedMap [] ms vcs = .ok m ∧
+      (sub.map (·.id)).Nodup ∧ sub.length = m.length ∧
+      (∀ mp ∈ sub, ∃ c e, resolveCredential decode mp env.asInterface = .ok c ∧ alGet m mp.id = some e ∧ e.raw = c.raw) ∧
+      (∀ e ∈ m, ∃ mp ∈ sub, mp.id = e.1) := by
+  rw [fact_cfg_fixed] at h ⊢
+  exact validate_spec Cfg.fixed rfl rfl re decode pd env sub m hraw hne h
+
+/-- corollary (surplus): a descriptor map with two entries for one input descriptor is rejected -/
+theorem surplus_entry_rejected (re : Regex) (decode : Decoder) (pd : PD) (env : Envelope) (sub : List Mapping)
+    (hraw : ∀ p ∈ env.presentations, ∀ c ∈ p, c.raw ≠ "") (hne : env.presentations ≠ [])
+    (hdup : ¬ (sub.map (·.id)).Nodup) (m : List (String × Cred)) :
+    validate Facts.C12.cfg re decode pd env sub ≠ .ok m := by
+  intro h
+  obtain ⟨_, _, _, _, hnd, _⟩ := forged_mapping_rejected re decode pd env sub m hraw hne h
+  exact hdup hnd
+
+/-- corollary (forged / permuted / foreign path): an entry that resolves to a credential other than the one
+    matching selects for that descriptor — or that does not resolve to a credential at all — is rejected -/
+theorem forged_entry_rejected (re : Regex) (decode : Decoder) (pd : PD) (env : Envelope) (sub : List Mapping)
+    (hraw : ∀ p ∈ env.presentations, ∀ c ∈ p, c.raw ≠ "") (hne : env.presentations ≠ [])
+    (mp : Mapping) (hmp : mp ∈ sub) (m : List (String × Cred))
+    (hbad : ∀ c, resolveCredential decode mp env.asInterface = .ok c → ∀ e, alGet m mp.id = some e → e.raw ≠ c.raw) :
+    validate Facts.C12.cfg re decode pd env sub ≠ .ok m := by
+  intro h
+  obtain ⟨_, _, _, _, _, _, hall, _⟩ := forged_mapping_rejected re decode pd env sub m hraw hne h
+  obtain ⟨c, e, hc, he, hr⟩ := hall mp hmp
+  exact hbad c hc e he hr
+
+/-- corollary (incomplete): a descriptor map that leaves out a descriptor matching selected is rejected -/
+theorem incomplete_map_rejected (re : Regex) (decode : Decoder) (pd : PD) (env : Envelope) (sub : List Mapping)
+    (hraw : ∀ p ∈ env.presentations, ∀ c ∈ p, c.raw ≠ "") (hne : env.presentations ≠ [])
+    (m : List (String × Cred)) (e : String × Cred) (he : e ∈ m) (hmiss : ∀ mp ∈ sub, mp.id ≠ e.1) :
+    validate Facts.C12.cfg re decode pd env sub ≠ .ok m := by
+  intro h
+  obtain ⟨_, _, _, _, _, _, _, hcov⟩ := forged_mapping_rejected re decode pd env sub m hraw hne h
+  obtain ⟨mp, hmp, hid⟩ := hcov e he
+  exact hmiss mp hmp hid
+
+/-! ### `field_values_faithful` -/
+
+/-- every value `ResolveConstraintsFields` reports under a key `k` comes from a credential of the given map, through a
+    constraint field with id `k` of the input descriptor that credential is mapped to, and is the value found at
+    one of that field's paths, or the regexp's whole match / single capture group on the string found there, or
+    nothing for an absent optional field -/
+theorem field_values_faithful (re : Regex) (pd : PD) (credMap : List (String × Cred)) (vals : Values)
+    (h : resolveFields Facts.C12.cfg re pd [] credMap = .ok vals) : ∀ e ∈ vals, FieldSource re pd credMap e := by
+  rw [fact_cfg_fixed] at h
+  intro e he
+  rcases resolveFields_faithful Cfg.fixed rfl re pd credMap [] vals h e he with h | h
+  · cases h
+  · exact h
+
+/-- two or more capture groups are an error, never a value -/
+theorem two_capture_groups_is_error (re : Regex) (pat s : String) (h : re pat s = .many) :
+    patternTail re pat (.str s) = .err "regex-groups" := many_groups_is_error re pat s h
+
+/-! non-vacuity: a definition with a pattern field, a matching wallet, the envelope the wallet would send -/
+
+def reDemo : Regex := fun p s => if p == "^(.*)Credential$" && s == "AlphaCredential" then .cap "Alpha" else .noMatch
+def demoTree : J := .obj [("type", .arr [.str "VerifiableCredential", .str "AlphaCredential"]), ("issuer", .str "did:example:issuer")]
+def demoCred : Cred := { name := "c0", fmt := "ldp_vc", key := "k0", raw := "r0", tree := demoTree }
+def demoDecoy : Cred := { name := "c1", fmt := "ldp_vc", key := "k1", raw := "r1", tree := .obj [("type", .str "Other")] }
+def demoPD : PD :=
+  { id := "pd", descs := [{ id := "d1", constraints := some [{ id := some "kind", paths := [some { steps := [.key "type"] }],
+                                                                filter := some { type := "string", pattern := some "^(.*)Credential$" } }] }] }
+def demoEnvJ : J := .obj [("verifiableCredential", .str "EMBEDDED-c0")]
+def demoDecode : Decoder := fun v f =>
+  match v, f with
+  | .str "EMBEDDED-c0", "ldp_vc" => none
+  | .str "EMBEDDED-c0", "jwt_vc" => some { cred := some demoCred }
+  | _, _ => none
+def demoCredJwt : Cred := { demoCred with fmt := "jwt_vc" }
+def demoEnv : Envelope := { asInterface := demoEnvJ, presentations := [[demoCredJwt]], signerOK := [true] }
+def demoSub : List Mapping := [{ top := { id := "d1", fmt := "jwt_vc", path := some vcPathSingle } }]
+
+example : (pdMatch Cfg.fixed reDemo demoPD [demoDecoy, demoCred]).isOk = true := by decide
+example : (validate Cfg.fixed reDemo demoDecode demoPD demoEnv demoSub).isOk = true := by decide
+example : (validate Cfg.fixed reDemo demoDecode demoPD demoEnv (demoSub ++ demoSub)).cls = "err:resolve" := by decide
+example : (validate Cfg.fixed reDemo demoDecode demoPD demoEnv []).cls = "err:count" := by decide
+example : ((resolveFields Cfg.fixed reDemo demoPD [] [("d1", demoCred)]).isOk = true) := by decide
+example : Matches reDemo "string" none (some "^(.*)Credential$") (.arr [.str "VerifiableCredential", .str "AlphaCredential"]) :=
+  .elem _ (.str "AlphaCredential") (by simp) (.str _ rfl trivial ⟨"Alpha", Or.inr (by decide)⟩)
+
+/-! ### The defects of the code before the repairs, as witnesses on the model of the OLD control flow
     (the same inputs are kept in harness/corpus/C12 and replayed on the real code on every run) -/
 
 def reNone : Regex := fun _ _ => .noMatch
@@ -69,6 +204,13 @@ theorem old_code_type_only_filter_matches_any_array :
 /-- #6: schema-valid `pick` with only `min` dereferences the nil `Max` -/
 theorem old_code_panics_pick_min_only :
     (pdMatch Cfg.old reNone wPick [wCred]).cls = "panic:nil-deref" := by decide
+
+/-- duplicate entry: with the old `Resolve` a descriptor map with a shadowed first entry (pointing anywhere) was accepted -/
+def demoShadow : List Mapping := { top := { id := "d1", fmt := "jwt_vc", path := some (vcPath 7) } } :: demoSub
+theorem old_code_accepts_shadowed_entry :
+    (validate Cfg.old reDemo (fun v f => if f == "jwt_vc" then some { cred := some demoCred } else demoDecode v f) demoPD
+      { demoEnv with asInterface := .obj [("verifiableCredential", .arr [.str "a", .str "b", .str "c", .str "d", .str "e", .str "f", .str "g", .str "h"])] }
+      [{ top := { id := "d1", fmt := "jwt_vc", path := some (vcPath 7) } }, { top := { id := "d1", fmt := "jwt_vc", path := some (vcPath 0) } }]).isOk = true := by decide
 
 /-- the repaired control flow on the same inputs -/
 example : (pdMatch Cfg.fixed reNone { descs := [wDescPattern] } [wCred]).cls = "err:nocred" := by decide
